@@ -66,7 +66,17 @@ DispatchDict ==
     UNION {{LCase(c, sv, [ok |-> TRUE, err |-> 0], TRUE, "dispatch-dictionary") : sv \in DictLattice(CommandTable[c].schema, F, TRUE)}
            : c \in {1, 2, 6, 10, 12}}
 
-MC_Cases == Ctap2Cases \cup Ctap1Cases \cup VendorCases \cup Ctap1Constructed \cup DispatchLattice \cup DispatchPairs \cup DispatchTriples \cup DispatchDict
+\* ... nor on a sub-command TOGETHER with another member: every other member over its lattice once
+\* per sub-command
+DispatchModes ==
+    UNION {{LCase(c, sv, [ok |-> TRUE, err |-> 0], TRUE, "dispatch-per-mode") : sv \in PerMode(CommandTable[c].schema, F, TRUE)} : c \in {6, 10}}
+
+MC_Cases == Ctap2Cases \cup Ctap1Cases \cup VendorCases \cup Ctap1Constructed \cup DispatchLattice \cup DispatchPairs \cup DispatchTriples
+MC_CasesDict == DispatchDict \cup DispatchModes
+MC_CasesDictDeep ==
+    MC_CasesDict
+    \cup UNION {{LCase(c, sv, [ok |-> TRUE, err |-> 0], TRUE, "dispatch-dictionary") : sv \in DictLatticeDeep(CommandTable[c].schema, F, TRUE)} : c \in {1, 2, 6, 10, 12}}
+    \cup UNION {{LCase(c, sv, [ok |-> TRUE, err |-> 0], TRUE, "dispatch-per-mode") : sv \in PerModeDeep(CommandTable[c].schema, F, TRUE)} : c \in {6, 10}}
 
 (***************************************************************************)
 (* C10 on the model                                                        *)
